@@ -57,6 +57,7 @@ struct Slot { unsigned char state; unsigned short off; unsigned asize; };   // s
 Slot g_slot[NSLOTS];
 int g_nslot, g_next_boff;
 int g_double_free, g_foreign_free, g_exhausted;
+int g_fail_realloc, g_realloc_refused;       // seam: the next platform realloc returns NULL / count of refused reallocs
 
 char* slot_addr(int s) { return g_base + (size_t)s * STRIDE + g_slot[s].off; }
 int slot_of(const char* p) {
@@ -64,6 +65,7 @@ int slot_of(const char* p) {
     return (int)((size_t)(p - g_base) / STRIDE);
 }
 char* arena_alloc(size_t size) {
+    if (size > STRIDE / 2) return nullptr;                       // no such block exists: an honest out-of-memory answer
     if (g_nslot >= NSLOTS || (size_t)g_next_boff + size > STRIDE) { g_exhausted++; return nullptr; }
     int s = g_nslot++;
     g_slot[s].state = 1; g_slot[s].off = (unsigned short)g_next_boff; g_slot[s].asize = (unsigned)size;
@@ -80,8 +82,9 @@ void arena_free(char* p) {
     ASAN_POISON_MEMORY_REGION(p, g_slot[s].asize);
 }
 void* arena_realloc(void* mem, size_t size) {
+    if (g_fail_realloc) { g_realloc_refused++; return nullptr; }   // the old block stays as it is
     char* n = arena_alloc(size);
-    if (!n) return nullptr;
+    if (!n) { g_realloc_refused++; return nullptr; }
     if (mem) {
         int s = slot_of((char*)mem);
         size_t old = (s >= 0 && s < g_nslot) ? g_slot[s].asize : 0;
@@ -119,6 +122,7 @@ void arena_reset() {
     for (int s = 0; s < g_nnode; s++) if (g_node_state[s] == 1) ASAN_POISON_MEMORY_REGION(g_noderaw + s * NODE_CHUNK, NODE_CHUNK);
     g_nslot = 0; g_nnode = 0; g_next_boff = 0;
     g_double_free = g_foreign_free = g_exhausted = g_node_bad_free = g_node_frees = 0;
+    g_fail_realloc = g_realloc_refused = 0;
 }
 void arena_init() {
     size_t b = ((size_t)g_raw + 15) & ~(size_t)15;
@@ -312,10 +316,11 @@ struct Cfg {
     const char* name; int depth, maxlive, route;
     std::vector<AllocVar> av; std::vector<size_t> rsizes; bool realloc_null;
     unsigned period_mask; int maxstage; bool release; unsigned clear_mask; bool mark; bool misuse; bool prune;
+    int rfail = 0;      // failing realloc variants offered per malloc block: 1 = platform realloc answers NULL; 2 = + size SIZE_MAX/2; 3 = + size SIZE_MAX-2
 };
-enum OpK { ALLOC, FREE, REALLOC, REALLOC_NULL, START, STOP, ENABLE, DISABLE, INC, DEC, RELEASE, CLEAR, MARK, FREE_STALE, FREE_FOREIGN, REALLOC_FOREIGN };
+enum OpK { ALLOC, FREE, REALLOC, REALLOC_NULL, START, STOP, ENABLE, DISABLE, INC, DEC, RELEASE, CLEAR, MARK, FREE_STALE, FREE_FOREIGN, REALLOC_FOREIGN, REALLOC_FAIL, REALLOC_NULL_FAIL };
 const char* OPNAME[] = {"alloc", "free", "realloc", "realloc-null", "startChecking", "stopChecking", "enable", "disable", "increaseAllocationStage", "decreaseAllocationStage",
-                        "releaseStage", "clearAllAccounting", "markCheckingPeriodLeaks", "free-unknown", "free-unknown", "realloc-unknown"};
+                        "releaseStage", "clearAllAccounting", "markCheckingPeriodLeaks", "free-unknown", "free-unknown", "realloc-unknown", "realloc-fail", "realloc-null-fail"};
 struct Op { OpK k; int a, b; };
 
 struct History {
@@ -323,7 +328,7 @@ struct History {
     std::vector<Rec> recs; MemLeakPeriod cur = mem_leak_period_disabled; int stage = 0; unsigned next_number = 1;
     unsigned char exp_slot[NSLOTS];
     char* stale = nullptr; int stale_kind = 0, stale_boff = 0;
-    std::string trace; bool nontrivial = false; int removals = 0, callbacks = 0;
+    std::string trace; bool nontrivial = false; int removals = 0, callbacks = 0, failed_reallocs = 0;
     MemoryLeakDetector* saved_det = nullptr; MemoryLeakFailure* saved_rep = nullptr; void* (*saved_realloc)(void*, size_t);
 
     explicit History(const Cfg& c) : cfg(c), det(&rep) {
@@ -362,6 +367,8 @@ struct History {
         }
         for (size_t i = 0; i < recs.size(); i++) ops[n++] = {FREE, (int)i, 0};
         for (size_t i = 0; i < recs.size(); i++) if (recs[i].kind == K_MAL) for (size_t s = 0; s < cfg.rsizes.size(); s++) ops[n++] = {REALLOC, (int)i, (int)s};
+        for (size_t i = 0; i < recs.size(); i++) if (recs[i].kind == K_MAL) for (int v = 0; v < cfg.rfail; v++) ops[n++] = {REALLOC_FAIL, (int)i, v};
+        if (cfg.rfail && cfg.realloc_null) ops[n++] = {REALLOC_NULL_FAIL, 0, 0};
         if (cfg.period_mask & 1) ops[n++] = {START, 0, 0};
         if (cfg.period_mask & 2) ops[n++] = {STOP, 0, 0};
         if (cfg.period_mask & 4) ops[n++] = {ENABLE, 0, 0};
@@ -470,6 +477,24 @@ struct History {
             expect_unknown = true;
             drv.release(K_NEW, foreign_addr());
             break;
+        case REALLOC_FAIL: case REALLOC_NULL_FAIL: {
+            // A realloc that cannot be satisfied: the platform realloc answers NULL (v0), or the size is one no allocator can
+            // serve (v1: SIZE_MAX/2, v2: SIZE_MAX-2 where size + accounting information wraps). Reference: NULL comes back and
+            // nothing changes - same outstanding set, the block keeps size / number / location / kind / period / stage, the
+            // sequence counter does not move (the unchanged code never stamps a record on this path), no callback, no memory
+            // handed back; the block stays releasable (free / realloc of it remain in the alphabet).
+            char* old = op.k == REALLOC_FAIL ? recs[op.a].addr : nullptr;
+            size_t size = op.b == 0 ? 24 : op.b == 1 ? (size_t)-1 / 2 : (size_t)-1 - 2;
+            if (op.k == REALLOC_FAIL) trace += vf::fmt("realloc-fail(#%u,%s) ", recs[op.a].number, op.b == 0 ? "24:platform-NULL" : op.b == 1 ? "SIZE_MAX/2" : "SIZE_MAX-2");
+            else trace += "realloc-fail(NULL,8:platform-NULL) ";
+            if (op.k == REALLOC_NULL_FAIL) size = 8;
+            g_next_boff = BOFF[0];
+            if (op.b == 0) g_fail_realloc = 1;
+            char* p = drv.realloc(old, size, "refail.c", 100 + step);
+            g_fail_realloc = 0;
+            failed_reallocs++;
+            if (p) return failed(name, "returned-non-null", "a realloc that could not be satisfied returned a pointer");
+            break; }
         case REALLOC_FOREIGN: {
             trace += "realloc(foreign,8) ";
             expect_unknown = true;
@@ -515,17 +540,21 @@ struct History {
         return true;
     }
 
-    // canonical state: current period and stage, per bucket the chain (newest first) of (kind,size,period,stage),
-    // bucket of the stale address
-    std::string key() const {
+    // canonical state: current period and stage, per bucket the chain in the table's own order (a failed realloc moves a
+    // record to the head of its chain without changing anything else, so the order is read from the table - it was
+    // validated by chain_check in this execution) of the model's (kind,size,period,stage), bucket of the stale address
+    std::string key() {
         std::string k;
         k += (char)('0' + (int)cur); k += (char)('0' + stage);
-        std::vector<const Rec*> v; for (auto& r : recs) v.push_back(&r);
-        std::sort(v.begin(), v.end(), [](const Rec* a, const Rec* b) { return a->boff != b->boff ? a->boff < b->boff : a->number > b->number; });
-        int last = -1;
-        for (auto* r : v) {
-            if (r->boff != last) { k += '|'; k += (char)('A' + r->boff); last = r->boff; }
-            k += (char)('0' + r->kind); k += (char)('a' + (r->size > 25 ? 25 : r->size)); k += (char)('0' + (int)r->period); k += (char)('0' + r->stage);
+        for (int i = 0; i < MemoryLeakDetectorTable::hash_prime; i++) {
+            MemoryLeakDetectorNode* n = det.memoryTable_.table_[i].head_;
+            if (!n) continue;
+            k += '|'; k += (char)('A' + i);
+            for (; n; n = n->next_) {
+                const Rec* r = nullptr; for (auto& x : recs) if (x.addr == n->memory_) r = &x;
+                if (!r) vf::harness_error("pruning key: a record passed the observation but has no model counterpart");
+                k += (char)('0' + r->kind); k += (char)('a' + (r->size > 25 ? 25 : r->size)); k += (char)('0' + (int)r->period); k += (char)('0' + r->stage);
+            }
         }
         k += '!'; if (stale && cfg.misuse) k += (char)('A' + stale_boff);
         return k;
@@ -538,10 +567,10 @@ struct History {
             int c = ch.choose(n);
             bool obs = ch.pos() >= ch.prefix.size();      // earlier positions were observed by the execution that first took them
             if (!apply(ops[c], step, obs)) return;
-            if (cfg.prune && ch.prune(vf::hash_str(key()), cfg.depth - step - 1)) break;
+            if (cfg.prune && obs && ch.prune(vf::hash_str(key()), cfg.depth - step - 1)) break;
         }
         size_t t[4]; for (int i = 0; i < 4; i++) { t[i] = 0; for (auto& r : recs) if (visible(r, PERIODS[i])) t[i]++; }
-        vf::outcome(vf::fmt("all=%zu dis=%zu en=%zu chk=%zu cur=%s stage=%d removed=%d unknown=%d", t[0], t[1], t[2], t[3], PNAME[(int)cur], stage, removals > 3 ? 3 : removals, callbacks > 2 ? 2 : callbacks));
+        vf::outcome(vf::fmt("all=%zu dis=%zu en=%zu chk=%zu cur=%s stage=%d removed=%d unknown=%d refail=%d", t[0], t[1], t[2], t[3], PNAME[(int)cur], stage, removals > 3 ? 3 : removals, callbacks > 2 ? 2 : callbacks, failed_reallocs > 2 ? 2 : failed_reallocs));
         if (nontrivial) vf::count("nontrivial");
         if (vf::want_sample()) vf::sample(trace);
     }
@@ -790,7 +819,7 @@ int main(int argc, char** argv) {
                        a.c_str(), c.realloc_null ? "+ realloc(NULL,8)" : "")
              + [&] { std::string s; for (auto z : c.rsizes) s += std::to_string(z) + " "; return s; }()
              + vf::fmt("}), %sstages 0..%d%s, clear {%s}%s%s; %s", c.period_mask == 15 ? "start/stopChecking, enable, disable, " : c.period_mask == 9 ? "startChecking, disable, " : "", c.maxstage, c.release ? " + stage release" : "", cl.c_str(),
-                       c.mark ? ", mark" : "", c.misuse ? ", free(stale), free(foreign), realloc(foreign)" : "", c.prune ? "pruned on canonical model state (chains in order, period, stage)" : "unpruned");
+                       c.mark ? ", mark" : "", (std::string(c.misuse ? ", free(stale), free(foreign), realloc(foreign)" : "") + (c.rfail ? vf::fmt(", failing realloc of a malloc block (%s)%s", c.rfail == 1 ? "platform realloc answers NULL" : c.rfail == 2 ? "platform NULL; size SIZE_MAX/2" : "platform NULL; size SIZE_MAX/2; size SIZE_MAX-2", c.realloc_null ? " and of NULL" : "") : "")).c_str(), c.prune ? "pruned on canonical model state (chains in order, period, stage)" : "unpruned");
     };
     auto run_dfs = [&](const Cfg& c, int min_outcomes) {
         vf::info(std::string(c.name) + ".bound", describe(c));
@@ -801,13 +830,13 @@ int main(int argc, char** argv) {
     // noguard (-DCPPUTEST_DISABLE_MEM_CORRUPTION_CHECK) forces the separate-record layout and drops the guard bytes; the period /
     // stage / clear logic is the same code, so that flavour runs the layout-sensitive sections and smaller bounds of the others
     //            name   depth                 live       route av     realloc  r(NULL) period stage rel  clear      mark  misuse prune
-    run_dfs(Cfg{"hist", T && !NG ? 6 : 5,      T && !NG ? 4 : 3, 0, AV_SMALL, {24},    false, 15, 1, true, 0x8 | 0x4, true,  false, false}, 30);
-    run_dfs(Cfg{"deep", (T ? 8 : 7) - (NG ? 1 : 0), 4,    0, AV_SMALL, {24},    false, 15, 2, true, 0xf,       true,  false, true}, 60);
+    run_dfs(Cfg{"hist", T && !NG ? 6 : 5,      T && !NG ? 4 : 3, 0, AV_SMALL, {24},    false, 15, 1, true, 0x8 | 0x4, true,  false, false, 1}, 30);
+    run_dfs(Cfg{"deep", (T ? 8 : 7) - (NG ? 1 : 0), 4,    0, AV_SMALL, {24},    false, 15, 2, true, 0xf,       true,  false, true, 2}, 60);
     run_dfs(Cfg{"unk",  T ? 10 : 8,            4,         0, AV_3,     {24},    false, 0,  0, true, 0x1,       false, true,  true}, 10);
-    if (!NG) run_dfs(Cfg{"inl", T ? 7 : 6,     4,         1, AV_MED,   {1, 24}, false, 9,  1, true, 0x8,       false, false, true}, 10);
-    run_dfs(Cfg{"sep",  T ? 7 : 6,             4,         2, AV_MED,   {1, 24}, false, 9,  1, true, 0x8,       false, false, true}, 10);
-    run_dfs(Cfg{"glob", T ? 7 : 6,             4,         3, AV_MED,   {1, 24}, true,  9,  1, true, 0x8,       false, false, true}, 10);
-    if (T && !NG) run_dfs(Cfg{"globfull", 5,   4,         3, AV_FULL,  {1, 24}, true,  9,  1, true, 0x8,       false, false, true}, 10);
+    if (!NG) run_dfs(Cfg{"inl", T ? 7 : 6,     4,         1, AV_MED,   {1, 24}, false, 9,  1, true, 0x8,       false, false, true, 3}, 10);
+    run_dfs(Cfg{"sep",  T ? 7 : 6,             4,         2, AV_MED,   {1, 24}, false, 9,  1, true, 0x8,       false, false, true, 3}, 10);
+    run_dfs(Cfg{"glob", T ? 7 : 6,             4,         3, AV_MED,   {1, 24}, true,  9,  1, true, 0x8,       false, false, true, 3}, 10);
+    if (T && !NG) run_dfs(Cfg{"globfull", 5,   4,         3, AV_FULL,  {1, 24}, true,  9,  1, true, 0x8,       false, false, true, 3}, 10);
     {
         int n = T && !NG ? 6 : 5;
         long N = factorial(n) * ipow(3, n);
